@@ -1,3 +1,4 @@
+import Noodles.Props.C06Lazy
 import Noodles.Props.C06File
 import Noodles.Sam.Record
 import Noodles.Sam.Header
